@@ -645,9 +645,28 @@ func runCase(t failer, c tcase, classify func(facts, expect)) {
 	if err != nil {
 		t.Fatalf("harness: generated input does not parse: %v\n%s", err, c.xml)
 	}
+	stanzaAsTop := false
+	if f.k != kTop {
+		// a top-level pattern that matches the stanza element itself (only a
+		// namespace-only pattern on the stanza namespace can) outranks the bare
+		// type wildcard; the generator keeps payload patterns out of such cases
+		specific := false
+		for _, p := range c.cfg {
+			if p.k == f.k && p.typ == f.typ && p.name != (xml.Name{}) {
+				specific = true
+			}
+		}
+		if idx, _, _ := lookup(c.cfg, kTop, "", f.start.Name, true); idx >= 0 && !specific {
+			f.k, f.typ = kTop, ""
+			stanzaAsTop = true
+		}
+	}
 	ex := predict(c.cfg, f)
 	if classify != nil {
 		classify(f, ex)
+	}
+	if stanzaAsTop {
+		ev.Class("stanza-matched-by-top-level-namespace-pattern")
 	}
 	fail := func(format string, args ...any) {
 		t.Helper()
@@ -1077,6 +1096,25 @@ func genCase(t *rapid.T) tcase {
 		e = genTop(t, c.stanzaNS)
 	} else {
 		e = genStanza(t, c.stanzaNS, ik, ityp)
+	}
+	if ik != kTop && rapid.IntRange(0, 7).Draw(t, "stanzaNSPattern") == 0 {
+		// a namespace-only top-level pattern naming the stanza namespace itself
+		// matches the stanza element: the statement ranks a namespace-only match
+		// above the bare type wildcard.  (It does not order it against payload
+		// patterns, so the element's own table keeps at most its bare wildcard.)
+		var cfg []pat
+		var fn []bool
+		for i, p := range c.cfg {
+			if p.k == ik && p.typ == ityp && p.name != (xml.Name{}) {
+				continue
+			}
+			cfg, fn = append(cfg, p), append(fn, c.fn[i])
+		}
+		pos := rapid.IntRange(0, len(cfg)).Draw(t, "stanzaNSPatternPos")
+		top := pat{k: kTop, name: xml.Name{Space: c.stanzaNS}}
+		cfg = append(cfg[:pos:pos], append([]pat{top}, cfg[pos:]...)...)
+		fn = append(fn[:pos:pos], append([]bool{rapid.Bool().Draw(t, "stanzaNSPatternFn")}, fn[pos:]...)...)
+		c.cfg, c.fn = cfg, fn
 	}
 	c.xml = e.String()
 	c.progs = genProgs(t, 12)
